@@ -10,6 +10,7 @@ from construct.expr import this
 from dataclasses import dataclass
 from dataclasses import field
 from io import  IOBase
+from io import SEEK_SET
 import math
 from typing import Any
 from typing import ClassVar
@@ -111,6 +112,8 @@ class AkaiSample(SampleElement):
             sample_width=self.bytes_per_sample,
             num_interleaved_channels=1
         )
+        # the stream is shared by every export of this sample: rewind it
+        self._data_stream.seek(0, SEEK_SET)
         data_streams = [
             DataStream(stream=self._data_stream, encoding=stream_encoding)
         ]
